@@ -218,7 +218,8 @@ def gen_expr_input(tier, rng):
 
 
 TYPE_NAMES = ['a', 'b', 'web', 'db', 'batch', 'reserved', 'default']
-NS_PATTERNS = ['ns1', 'ns2', 'ns*', '*', 'kube-*', '?s1', 'prod-?', 'default', 'monitoring', 'mon*', 'kube-system', 'prod-*', 'a/*', '*/b', 'x', '[', 'ns[12]']
+NS_PATTERNS = ['ns1', 'ns2', 'ns*', '*', 'kube-*', '?s1', 'prod-?', 'default', 'monitoring', 'mon*', 'kube-system', 'prod-*', 'a/*', '*/b', 'x', 'n*1', '*-?']
+EXOTIC_PATTERNS = ['[', 'ns[12]', 'kube\\-system', '[a-z]*']   # outside the modelled glob fragment: oracle/correspondence skip them
 BLN_KEYS = ['name', 'namespace', 'pod/name', 'labels/app', 'pod/labels/app', 'pod/labels/tier', 'tags/x', 'qosclass', 'pod/qosclass',
             ':pod/namespace:name', ':,=namespace,labels/app']
 
@@ -253,6 +254,8 @@ def gen_bln_input(tier, rng):
             t = {'name': nm}
             if rng.random() < 0.55:
                 t['namespaces'] = [rng.choice(NS_PATTERNS) for _ in range(rng.randint(1, 3))]
+                if rng.random() < 0.04:
+                    t['namespaces'].append(rng.choice(EXOTIC_PATTERNS))
             if rng.random() < 0.5:
                 es = []
                 for _ in range(rng.randint(1, 2)):
@@ -264,7 +267,8 @@ def gen_bln_input(tier, rng):
                     vals = []
                     for _ in range(nv):
                         v = rng.choice(pool)
-                        vals.append(globify(rng, v) if op.startswith('Matches') and rng.random() < 0.6 else v)
+                        g = globify(rng, v) if op.startswith('Matches') and rng.random() < 0.6 else v
+                        vals.append(g if glob_ok(g) or rng.random() < 0.05 else '*')
                     es.append({'key': key, 'operator': op, 'values': vals})
                 t['matchExpressions'] = es
             types.append(t)
@@ -629,9 +633,12 @@ def bln_part(chk, bin_, bo, files, stats):
                 if em == 'T' or ns_match(d['namespaces']):
                     exp, why = ('ok', d['name']), 'first matching type in order %r' % names
                     break
+                if not all(glob_ok(p) for p in (d['namespaces'] or [])):
+                    exp, why = 'undetermined', ''   # a pattern outside the oracle's glob fragment decides
+                    break
             if exp is None:
                 exp, why = ('ok', 'default'), 'no type matches'
-        if (r['res'], r['name']) != exp:
+        if exp != 'undetermined' and (r['res'], r['name']) != exp:
             sig = 'annotated-type' if info['ann_ok'] else 'first-match-in-order' if why.startswith('first') else 'default-type'
             chk.violation('balloon-choice-' + sig, 'container in namespace %r (%s): chosen %r/%s, expected %r by %s' % (ns, info['name'], r['name'], r['res'], exp, why), rep(k, c, r))
         # kube-system and the configured reserved namespaces match the reserved type
